@@ -862,7 +862,32 @@ def r23(ctx):
         raise AnalysisBroken('C18.R23: the field character test is not evaluable (%s)' % e)
 
 
+def r24(ctx):
+    ctx.rule('C18.R24', 'what addPart stores it has taken out of the parse buffer: in StringReplacer::addPart every store of the '
+             'collected text into m_parts (push_back, or += on the previous constant) is reached only behind the clearing of '
+             'the buffer (stack.str("")), on every path - text left in the buffer after it was appended to the previous '
+             'constant (%_ or %% behind a constant) becomes the prefix of the next variable name, the variable is unknown '
+             'and topics built from the template cannot be matched back', minimum=2)
+    fb = ctx.fb
+    fn = fb.fn('ebusd::StringReplacer::addPart')
+    ctx.touch(fn)
+    buf = fn.P(0)
+    clears = set(c for c in fn.calls('str') if fn.nodes[c].get('args') and fn.key(c).startswith(buf + '.str('))
+    stores = []
+    for x, v in sorted(fn.nodes.items()):
+        if v['k'] == 'CXXMemberCallExpr' and (v.get('callee') or '').endswith('::push_back') and fn.key(x).startswith('this.m_parts.'):
+            stores.append(x)
+        if v['k'] == 'CXXOperatorCallExpr' and v.get('op') == '+=' and v.get('args') and 'this.m_parts' in fn.key(v['args'][0]):
+            stores.append(x)
+    if not clears or len(stores) < 2:
+        raise AnalysisBroken('C18.R24: clearing of the parse buffer (%d) / stores into m_parts (%d) not recognised' % (len(clears), len(stores)))
+    for x in stores:
+        ok = not fn.reaches_point(fn.entry, fn.pos(x), clears)
+        ctx.ob('C18.R24', fn, x, ok, 'store into m_parts: %s' % fn.key(x)[:60], 'reached only behind the clearing of the parse buffer: %s' % ok)
+
+
 def run(ctx):
+    r24(ctx)
     r23(ctx)
     r21(ctx)
     r22(ctx)
